@@ -353,6 +353,37 @@ func init() {
 	in["strconv.FormatFloat"] = func(fr *frame, a []value) value {
 		return strconv.FormatFloat(a[0].(float64), byte(asInt64(a[1])), int(asInt64(a[2])), int(asInt64(a[3])))
 	}
+	// strconv.Append*: format, then append byte-wise with the write notes of
+	// the append builtin (a caller-provided buffer may be shared memory)
+	appendText := func(fr *frame, dst value, text string) value {
+		d := dst.([]value)
+		add := strBytes(text)
+		if fr.ex.frozen != nil || fr.ex.hooks != nil {
+			if len(d)+len(add) <= cap(d) {
+				full := d[:cap(d)]
+				for i := len(d); i < len(d)+len(add); i++ {
+					fr.ex.noteWrite(fr, &full[i])
+				}
+			}
+		}
+		return append(d, add...)
+	}
+	in["strconv.AppendFloat"] = func(fr *frame, a []value) value {
+		return appendText(fr, a[0], strconv.FormatFloat(a[1].(float64), byte(asInt64(a[2])), int(asInt64(a[3])), int(asInt64(a[4]))))
+	}
+	in["strconv.AppendInt"] = func(fr *frame, a []value) value {
+		return appendText(fr, a[0], strconv.FormatInt(concreteInt(fr, a[1], "strconv.AppendInt"), int(concreteInt(fr, a[2], "strconv.AppendInt"))))
+	}
+	in["strconv.AppendUint"] = func(fr *frame, a []value) value {
+		return appendText(fr, a[0], strconv.FormatUint(uint64(concreteInt(fr, a[1], "strconv.AppendUint")), int(concreteInt(fr, a[2], "strconv.AppendUint"))))
+	}
+	in["strconv.AppendBool"] = func(fr *frame, a []value) value {
+		b, _ := a[1].(bool)
+		return appendText(fr, a[0], strconv.FormatBool(b))
+	}
+	in["strconv.AppendQuote"] = func(fr *frame, a []value) value {
+		return appendText(fr, a[0], strconv.Quote(concreteStr(fr, a[1], "strconv.AppendQuote")))
+	}
 	in["strconv.FormatComplex"] = func(fr *frame, a []value) value {
 		return strconv.FormatComplex(a[0].(complex128), byte(asInt64(a[1])), int(asInt64(a[2])), int(asInt64(a[3])))
 	}
@@ -431,6 +462,68 @@ func init() {
 	}
 	in["fmt.Errorf"] = func(fr *frame, a []value) value {
 		return fr.ex.newError(fr.ex.sprintf(fr, concreteStr(fr, a[0], "fmt.Errorf"), strSlice(a[1])))
+	}
+
+	// ---- sync.Map: an engine-side table per map instance (insertion-ordered,
+	// keys compared like interface values); its operations are synchronised
+	// by definition and therefore not entered into the write / race logs
+	emptyIface := types.NewInterfaceType(nil, nil)
+	syncMap := func(fr *frame, recv value) *omap {
+		p, _ := recv.(*value)
+		if p == nil {
+			fr.rtPanic("nil", "nil *sync.Map")
+		}
+		if fr.ex.syncMaps == nil {
+			fr.ex.syncMaps = make(map[*value]*omap)
+		}
+		m := fr.ex.syncMaps[p]
+		if m == nil {
+			m = makeMap(emptyIface)
+			fr.ex.syncMaps[p] = m
+		}
+		return m
+	}
+	in["(*sync.Map).Load"] = func(fr *frame, a []value) value {
+		if v, ok := syncMap(fr, a[0]).lookup(a[1]); ok {
+			return tuple{v, true}
+		}
+		return tuple{iface{}, false}
+	}
+	in["(*sync.Map).Store"] = func(fr *frame, a []value) value {
+		syncMap(fr, a[0]).insert(a[1], a[2])
+		return nil
+	}
+	in["(*sync.Map).LoadOrStore"] = func(fr *frame, a []value) value {
+		m := syncMap(fr, a[0])
+		if v, ok := m.lookup(a[1]); ok {
+			return tuple{v, true}
+		}
+		m.insert(a[1], a[2])
+		return tuple{a[2], false}
+	}
+	in["(*sync.Map).LoadAndDelete"] = func(fr *frame, a []value) value {
+		m := syncMap(fr, a[0])
+		if v, ok := m.lookup(a[1]); ok {
+			m.delete(a[1])
+			return tuple{v, true}
+		}
+		return tuple{iface{}, false}
+	}
+	in["(*sync.Map).Delete"] = func(fr *frame, a []value) value {
+		syncMap(fr, a[0]).delete(a[1])
+		return nil
+	}
+	in["(*sync.Map).Range"] = func(fr *frame, a []value) value {
+		m := syncMap(fr, a[0])
+		keys := append([]value{}, m.keys...)
+		vals := append([]value{}, m.vals...)
+		for i := range keys {
+			r := fr.ex.call(fr, 0, a[1], []value{keys[i], vals[i]})
+			if b, ok := r.(bool); ok && !b {
+				break
+			}
+		}
+		return nil
 	}
 
 	// ---- sync.Mutex: engine-side lock table
